@@ -18,6 +18,11 @@ U16 = z3.Function('U16', z3.IntSort(), z3.IntSort(), z3.IntSort())
 F64 = z3.Function('F64', z3.IntSort(), z3.IntSort(), z3.RealSort())
 
 
+from .values import F32 as _F32
+F32BE = z3.Function('F32BE', z3.IntSort(), z3.IntSort(), _F32)      # float32 stored big-endian at (kind, offset)
+F32LE = z3.Function('F32LE', z3.IntSort(), z3.IntSort(), _F32)
+
+
 class Tok:
     __slots__ = ('kind', 'off')
 
